@@ -1,7 +1,8 @@
 #!/venv/bin/python
 """Sensitivity runs: apply each listed mutation to /repo (textual replace), run the property's quick
 check, revert with git.  usage: scripts/mutate.py C18 [name-substring]   (never leaves /repo modified)"""
-import json, os, subprocess, sys, time
+import functools, json, os, subprocess, sys, time
+print = functools.partial(print, flush=True)
 VERIF = os.path.dirname(os.path.dirname(os.path.abspath(__file__)))
 REPO = "/repo"
 
@@ -30,7 +31,8 @@ def main():
                 new = new.replace(extra["old"], extra["new"])
             open(path, "w").write(new)
             t = time.time()
-            r = sh(os.path.join(VERIF, "check"), prop, "--tier", tier, cwd=VERIF)
+            env = dict(os.environ, VERIF_CASE_TIMEOUT=os.environ.get("VERIF_CASE_TIMEOUT", "15"))
+            r = sh(os.path.join(VERIF, "check"), prop, "--tier", tier, cwd=VERIF, env=env)
             verdict = {0: "MISSED", 1: "caught", 2: "harness-error"}.get(r.returncode, str(r.returncode))
             first = next((l for l in r.stdout.splitlines() if l.startswith("  ")), "").strip()[:150]
             print("%-13s %-40s %5.1fs  %s" % (verdict, m["name"], time.time() - t, first))
